@@ -432,6 +432,10 @@ var scenarios = []scenario{
     out.append(Int.fromBigEndianBytes([1, 0])!.toString())
     out.append(String.fromUTF8([104, 105]) ?? "nil")
     out.append(String.fromUTF8([255]) ?? "nil")
+    out.append(true.toString().length.toString())
+    out.append((s.length > 100).toString().concat("!"))
+    for c in false.toString() { out.append(c.toString()) }
+    out.append(true.toString().slice(from: 1, upTo: 3))
     return out`, w, w))}}
 	}},
 	{"closures", func(r *Rng) []scnStep {
